@@ -27,4 +27,8 @@ example : acyclic [(0, 1), (1, 2), (2, 0)] = false := by decide
 example : acyclic [(0, 1), (1, 0), (3, 4)] = false := by decide
 example : acyclic [(0, 1), (0, 2), (1, 2)] = true := by decide
 
+/-- `TxCache.AddTx` performs both index updates inside one critical section: concurrent AddTx calls execute as SOME
+    sequential order of these sections (hypothesis of SV.TxCache.AddCommute) -/
+theorem addTx_updates_atomic : addTxIndexUpdatesAtomic = true := by decide
+
 end SV.Facts
